@@ -51,7 +51,7 @@ func TestC10Exhaustive(t *testing.T) {
 			}
 			ctx, cf := context.WithTimeout(context.Background(), 5*time.Second)
 			if err := snd.top.Tell(ctx, stack.SAddr{N: 100}, p2p.IOVec{msgs[s]}); err != nil {
-				t.Fatalf("harness: %v", err)
+				t.Fatalf("%s", ev.Tag(fmt.Sprintf("harness: %v", err)))
 			}
 			cf()
 			for i, o := range snd.script.Take() {
@@ -59,7 +59,7 @@ func TestC10Exhaustive(t *testing.T) {
 			}
 			snd.top.Close()
 			if len(frags[s]) != partsPer {
-				t.Fatalf("harness: expected %d fragments, got %d", partsPer, len(frags[s]))
+				t.Fatalf("%s", ev.Tag(fmt.Sprintf("harness: expected %d fragments, got %d", partsPer, len(frags[s]))))
 			}
 		}
 		// all interleavings of the two sequences (merge orders)
